@@ -11,7 +11,7 @@
    `data[pos..]`; the prefix `note_content[..value_start]` as the concatenation of the pieces
    consumed so far (the two coincide by construction; the in-process correspondence compares
    the result with the real function on every generated note). *)
-From Verif Require Import Base.Str.
+From Verif Require Import Base.Str Gen.GenRemap.
 
 Definition c_colon : cp := 58.
 Definition c_nul : cp := 0.
@@ -195,9 +195,8 @@ Fixpoint count_nl (s : str) : nat :=
 
 (* ------------------------------------------------------------------ (b) remap *)
 
-(* the 17 bytes: double quote, base_commit_sha, double quote *)
-Definition marker : str :=
-  [34; 98; 97; 115; 101; 95; 99; 111; 109; 109; 105; 116; 95; 115; 104; 97; 34].
+(* the field marker (17 bytes: double quote, base_commit_sha, double quote), read from the source *)
+Definition marker : str := remap_marker.
 
 Fixpoint starts_with (p s : str) : bool :=
   match p, s with
@@ -218,7 +217,8 @@ Fixpoint find_split (p s : str) : option (str * str) :=
            end
        end.
 
-Definition is_json_ws (c : cp) : bool := (c =? 32) || (c =? 10) || (c =? 9) || (c =? 13).
+(* the byte set of the two skip loops (blank, LF, tab, CR), read from the source *)
+Definition is_json_ws (c : cp) : bool := mem c remap_ws.
 
 (* while pos < len && matches!(bytes[pos], b' ' | b'\n' | b'\t' | b'\r') { pos += 1 } *)
 Fixpoint span_ws (s : str) : str * str :=
@@ -248,7 +248,9 @@ Fixpoint scan_value (s : str) : option (str * str) :=
            end
   end.
 
-Definition try_remap (s t : str) : option str :=
+(* the scan from the first marker occurrence in `s` (s = the whole note in the historical shape,
+   the metadata section in the repaired shape) *)
+Definition remap_in (s t : str) : option str :=
   match find_split marker s with
   | None => None
   | Some (pre, r0) =>
@@ -273,6 +275,29 @@ Definition try_remap (s t : str) : option str :=
       end
   end.
 
+(* three dashes and LF; LF, three dashes and LF *)
+Definition div_line : str := [45; 45; 45; 10].
+Definition nl_div_line : str := 10 :: div_line.
+
+(* let metadata_start = if note_content.starts_with(div_line) { 4 } else { find(nl_div_line)? + 5 } *)
+Definition meta_split (s : str) : option (str * str) :=
+  if starts_with div_line s then Some (div_line, skipn (length div_line) s)
+  else match find_split nl_div_line s with
+       | Some (a, b) => Some (a ++ nl_div_line, b)
+       | None => None
+       end.
+
+(* repaired shape: the marker is searched below the first divider line only *)
+Definition try_remap_scoped (s t : str) : option str :=
+  match meta_split s with
+  | None => None
+  | Some (att, md) => match remap_in md t with Some r => Some (att ++ r) | None => None end
+  end.
+
+(* try_remap_base_commit_sha_field as the source has it NOW (fact from the translator) *)
+Definition try_remap (s t : str) : option str :=
+  if remap_below_divider then try_remap_scoped s t else remap_in s t.
+
 (* remap_note_content_for_target_commit; the fallback (deserialize, set base, serialize — the
    C17 codec plus serde) is a parameter: the theorems hold for every fallback *)
 Definition remap_note (fallback : str -> str -> option str) (s t : str) : str :=
@@ -284,7 +309,7 @@ Definition remap_note (fallback : str -> str -> option str) (s t : str) : str :=
 (* ---------- spec side: where the base field lives ---------- *)
 Definition divider : str := [45; 45; 45].
 
-(* first line equal to three dashes (LF or CRLF): Some (everything through that line, the rest) *)
+(* first LF-terminated line equal to three dashes: Some (everything through that line, the rest) *)
 Fixpoint split_div (fuel : nat) (s : str) : option (str * str) :=
   match fuel with
   | O => None
@@ -292,7 +317,7 @@ Fixpoint split_div (fuel : nat) (s : str) : option (str * str) :=
       match split_first c_nl s with
       | None => None
       | Some (l, rest) =>
-          if str_eqb (strip_cr l) divider then Some (l ++ [c_nl], rest)
+          if str_eqb l divider then Some (l ++ [c_nl], rest)
           else match split_div f rest with
                | Some (a, b) => Some (l ++ c_nl :: a, b)
                | None => None
@@ -312,14 +337,21 @@ Fixpoint no_marker_start (a rest : str) : bool :=
 (* what the rewrite is meant to do: the same surgery confined to the JSON metadata *)
 Definition replace_base (s t : str) : str :=
   match split_note s with
-  | Some (att, md) => match try_remap md t with Some md' => att ++ md' | None => s end
+  | Some (att, md) => match remap_in md t with Some md' => att ++ md' | None => s end
   | None => s
   end.
 
 Definition wf_note (s : str) : bool :=
   match split_note s with
   | Some (att, md) =>
-      no_marker_start att md && match try_remap md [] with Some _ => true | None => false end
+      no_marker_start att md && match remap_in md [] with Some _ => true | None => false end
+  | None => false
+  end.
+
+(* the metadata has the field (no condition on the attestation section) *)
+Definition has_base_field (s : str) : bool :=
+  match split_note s with
+  | Some (_, md) => match remap_in md [] with Some _ => true | None => false end
   | None => false
   end.
 
